@@ -8,7 +8,7 @@ import (
 )
 
 func init() {
-	allFacts = append(allFacts, factCbConds, factCaps, factSerial, factGuards, factStackErrAssert)
+	allFacts = append(allFacts, factCbConds, factCaps, factSerial, factGuards, factStackErrAssert, factMonitorSubmits)
 }
 
 // boolExpr translates a Go boolean expression over a fixed vocabulary into Lean Bool syntax.
@@ -379,4 +379,68 @@ func factStackErrAssert() {
 		miss("F6e", "dials.go updateSourceValue: `if stackErr != nil { … }`")
 	}
 	emit("/-- F6e: every type assertion in updateSourceValue's stacking-error branch has the two-value form (compose\nreturns a nil interface there) -/\ndef stackErrAssertCommaOk : Bool := %v\n\n", safe)
+}
+
+// factMonitorSubmits (F6s): the monitor goroutine (monitor and updateSourceValue) hands events to the callback
+// goroutine through submitEvent only - the non-blocking send (a select with a default case) - never through
+// submitEventBlocking or a bare send on cbch.  The runtime model's four submission steps (.submitErr stack / verify,
+// .submitNew, .submitSrcErr) are `trySubmit`: enabled whatever the queue holds.
+func factMonitorSubmits() {
+	f := parse("dials.go")
+	nonBlocking, blocking, bare := 0, 0, 0
+	seen := 0
+	for _, name := range []string{"monitor", "updateSourceValue"} {
+		fd := funcDecl(f, name)
+		if fd == nil {
+			continue
+		}
+		seen++
+		ast.Inspect(fd, func(n ast.Node) bool {
+			switch x := n.(type) {
+			case *ast.CallExpr:
+				if sel, ok := x.Fun.(*ast.SelectorExpr); ok {
+					switch sel.Sel.Name {
+					case "submitEvent":
+						nonBlocking++
+					case "submitEventBlocking":
+						blocking++
+					}
+				}
+			case *ast.SendStmt:
+				if strings.HasSuffix(src(x.Chan), "cbch") {
+					bare++
+				}
+			}
+			return true
+		})
+	}
+	if seen != 2 {
+		miss("F6s", "dials.go: func monitor and func updateSourceValue")
+	}
+	// submitEvent itself: one select that sends on cbch and has a default case
+	hasDefault := false
+	if fd := funcDecl(f, "submitEvent"); fd != nil {
+		ast.Inspect(fd, func(n ast.Node) bool {
+			sel, ok := n.(*ast.SelectStmt)
+			if !ok {
+				return true
+			}
+			sends, dflt := false, false
+			for _, cl := range sel.Body.List {
+				cc := cl.(*ast.CommClause)
+				if cc.Comm == nil {
+					dflt = true
+				} else if ss, ok := cc.Comm.(*ast.SendStmt); ok && strings.HasSuffix(src(ss.Chan), "cbch") {
+					sends = true
+				}
+			}
+			if sends && dflt {
+				hasDefault = true
+			}
+			return true
+		})
+	} else {
+		miss("F6s", "dials.go: func submitEvent")
+	}
+	emit("/-- F6s: event submissions on the monitor goroutine (monitor + updateSourceValue): through submitEvent /\nthrough submitEventBlocking or a bare send on cbch; and submitEvent's send sits in a select with a default case -/\ndef monitorSubmits : Nat := %d\ndef monitorBlockingSubmits : Nat := %d\ndef submitEventHasDefault : Bool := %v\n\n", nonBlocking, blocking+bare, hasDefault)
 }
